@@ -259,11 +259,11 @@ def jobs(tier):
         cfgs += [(2, 3, 2, False, "scripted", True, None)]
     else:
         cfgs += [(1, 2, 4, e, a, True, None) for e in (False, True) for a in ("scripted", "uncontrolled")]
-        cfgs += [(1, 3, 4, e, "scripted", False, a) for e in (False, True) for a in shards(3, 4)]
-        cfgs += [(2, 3, 4, e, al, False, a) for e in (False, True) for al in ("scripted", "uncontrolled") for a in shards(3, 4)]
+        cfgs += [(1, 3, 4, True, "scripted", False, a) for a in shards(3, 4)]
+        cfgs += [(2, 3, 4, True, "scripted", False, a) for a in shards(3, 4)] + [(2, 3, 4, False, "uncontrolled", False, a) for a in shards(3, 4)]
         cfgs += [(2, 3, 3, True, "scripted", True, a) for a in shards(3, 3)]
-        cfgs += [(2, 4, 3, e, "uncontrolled", False, a) for e in (False, True) for a in shards(4, 3)]
-        cfgs += [(1, 4, 3, True, "uncontrolled", False, a) for a in shards(4, 3)]
+        cfgs += [(2, 4, 3, True, "uncontrolled", False, a) for a in shards(4, 3)]
+        cfgs += [(1, 4, 3, True, "uncontrolled", False, a) for a in shards(4, 3) if a[0] == 0]
     for n_st, n_sess, H, early, algo, second, arr in cfgs:
         # big shards are split once more by the first session's departure
         d0s = [None] if (n_st == 1 and n_sess <= 2) else list(range((arr[0] if arr else 0) + 1, H + 1))
